@@ -487,25 +487,38 @@ def decode_numpy(nc, mem, q, o):
     cell = lambda off: o.cells[q.off + off][0]
     shape = _vec_terms(mem, o, q.off + fo[4], 'shape')
     strides = _vec_terms(mem, o, q.off + fo[5], 'strides')
-    if len(shape) != 1:
-        raise Unsupported('NumpyArray result with %d dimensions' % len(shape))
-    n = concrete(shape[0], 'NumpyArray length')
+    dims = [concrete(x, 'NumpyArray shape') for x in shape]
+    strs = [concrete(x, 'NumpyArray stride') for x in strides]
+    if len(dims) != len(strs) or not dims:
+        raise Unsupported('NumpyArray result with shape %s and strides %s' % (dims, strs))
     itemsize = concrete(cell(fo[7]), 'itemsize')
-    stride = concrete(strides[0], 'stride')
     byteoffset = cell(fo[6])
     dc = [(g, p) for g, p in ptr_cases(cell(fo[1])) if p.obj is not None]
-    if n and len(dc) != 1:
+    total = 1
+    for x in dims:
+        total *= x
+    if total and len(dc) != 1:
         raise Unsupported('NumpyArray buffer pointer is not a single object')
-    vals = []
-    for i in range(n):
+
+    def elem(byteoff):
         p = dc[0][1]
         buf = mem.o[p.obj]
         es = buf.ebytes
-        if itemsize != es or stride % es:
+        if es == 1 and itemsize > 1:
+            # a void* buffer (kernel::malloc<void>) holding wider items: little-endian assembly of the bytes
+            base_ = z3.simplify(p.off + byteoffset + byteoff)
+            v = z3.Concat(*[z3.Select(buf.arr, base_ + b) for b in reversed(range(itemsize))])
+            return z3.simplify(v if v.size() == 64 else z3.SignExt(64 - v.size(), v))
+        if itemsize != es or byteoff % es:
             raise Unsupported('NumpyArray itemsize %d over a buffer of %d-byte cells' % (itemsize, es))
-        idx = z3.simplify(p.off + z3.UDiv(byteoffset, BV(es)) + i * (stride // es))
-        v = z3.Select(buf.arr, idx)
-        vals.append(z3.simplify(v if v.size() == 64 else z3.SignExt(64 - v.size(), v)))
+        v = z3.Select(buf.arr, z3.simplify(p.off + z3.UDiv(byteoffset, BV(es)) + byteoff // es))
+        return z3.simplify(v if v.size() == 64 else z3.SignExt(64 - v.size(), v))
+
+    def build(d, base):
+        if d == len(dims) - 1:
+            return [elem(base + i * strs[d]) for i in range(dims[d])]
+        return [build(d + 1, base + i * strs[d]) for i in range(dims[d])]
+    vals = build(0, 0)
     return dict(cls='numpy', values=vals, byteoffset=byteoffset, itemsize=itemsize)
 
 
@@ -545,7 +558,9 @@ def at(d, k):
     k = BV(k) if isinstance(k, int) else k
     c = d['cls']
     if c == 'numpy':
-        return Elem(d['values'][concrete(k, 'position in a NumpyArray')])
+        def wrap(v):
+            return [wrap(x) for x in v] if isinstance(v, list) else Elem(v)
+        return wrap(d['values'][concrete(k, 'position in a NumpyArray')])
     if c == 'opaque':
         return Elem(z3.simplify(z3.Select(d['atoms'], k)))
     if c == 'regular':
